@@ -17,7 +17,7 @@ CHECKS = {
          "the library model of std::path / path-dedot / path-absolutize is an assumption checked on one PutObject per explored path; what the kernel does with the computed path (symlinks, races, case-folding file systems) is not applicable to this technique and is not claimed",
          "DESIGN.md 0.6 and 5/C17", True),
  "C04": ("rsx", "rsx+z3: symbolic execution of S3ErrorCode::status_code over all enum variants against data/s3_error_codes.json, of ops::serialize_error + S3Error's XML impl on a symbolic error, and of every path of ops::call (error funnel, panic sites); malformed-request family on the real debug build",
-         "status = override ?? table ?? 500, headers = the error's, document = Error{Code, Message?, RequestId?} on every path; every error of prepare / operation / custom route reaches serialize_error on every one of ~25 000 paths; as_str/from_bytes tables consistent; ~1 200 malformed requests x configurations answered without panic on the debug build",
+         "status = override ?? table ?? 500, headers = the error's, document = Error{Code, Message?, RequestId?} on every path; every error of prepare / operation / custom route reaches serialize_error on every one of ~25 000 paths; as_str/from_bytes tables consistent; ~2 500 malformed requests x configurations (incl. dates / durations at the edges of their ranges) answered without panic on the debug build; a failing backend call of each of 77 operations rendered as exactly one well-formed error document",
          "panic freedom of request parsing is decided only inside the bounds of the Kani harnesses of the other properties; third-party parsers beyond those bounds are outside the claim",
          "DESIGN.md 5/C04", False),
  "C15": ("rsx", "rsx in precise mode: Message::serialize executed on symbolic byte strings of symbolic length with exact integer semantics (u8/u16/u32 conversions, checked usize additions) and CRC-32 uninterpreted; z3 (linear integer arithmetic) decides, field by field, equality with the frame the AWS event-stream specification prescribes and the exact Err condition; frames of the real build decoded by an independent decoder with a real CRC-32",
@@ -42,7 +42,7 @@ CHECKS = {
          "DESIGN.md 5/C09", True),
  "C10": ("rsx", "rsx+z3 over every path of SignatureContext::check (POST branch) and over PutObject::deserialize_http_multipart against the Smithy model; reference-signed form family on the real build",
          "identity only behind the comparison of HMAC(policy) under the provider's secret; every form field bound to the PutObject member the model names; file bytes exact for contents with CR/LF runs, boundary look-alikes and binary data (family); policy expiration/conditions are not enforced (4 known findings)",
-         "the multipart parser is exercised by the family only; crypto uninterpreted in solver queries",
+         "the multipart parser is exercised by the family only (every cut of a form with a trailing field; a form with one token per header-equivalent field); crypto uninterpreted in solver queries",
          "DESIGN.md 5/C10", False),
  "C11": ("rsx+kani", "rsx+z3 over every path of SignatureContext::check (V2 branches); Kani/CBMC on AuthorizationV2::parse; reference V2 signer family",
          "dispatch precedence, identity, compare under the provider's secret, Expires test before acceptance (all paths); AuthorizationV2 grammar over all 5-byte texts; 21 reference-signed cases incl. sub-resources, repeated x-amz headers and single-component alterations",
@@ -50,13 +50,13 @@ CHECKS = {
          "DESIGN.md 5/C11", True),
  "C13": ("rsx", "source-level symbolic execution of every generated SerializeContent/DeserializeContent pair on typed symbolic values (text leaves symbolic); z3 decides decode(encode(v)) = v; element names and list shapes against the Smithy model; native re-encoding of every counterexample document; Kani harnesses on the quick-xml event layer",
          "~130 XML types x presence patterns {all, none, each member absent, each member alone} x list lengths {1,2}, strictness (duplicate / unknown / missing required element refused), top-level documents and root names",
-         "the Serializer/Deserializer methods of xml/ser.rs and xml/de.rs are modelled method by method (listed in the evidence); required lists carry >= 1 element; byte-level meaning (entities, CDATA, comments, whitespace) is the Kani part",
+         "the Serializer/Deserializer methods of xml/ser.rs and xml/de.rs are modelled method by method (listed in the evidence) and that model is validated on the real build by decoding and re-encoding all 469 documents of the abstract layer; required flattened lists carry >= 1 element (empty wrapped lists are covered); the 13 encoder-only output types are checked against the model (names, list shapes, element-to-member binding, root names); byte-level meaning (entities, CDATA, comments, whitespace) is the Kani part plus a native sweep",
          "DESIGN.md 5/C13", True),
- "C02": ("rsx", "source-level symbolic execution of all 96 generated deserialize_http bodies and of the http/de.rs helpers; z3 decides the equality of each member's source with the binding the Smithy model prescribes and the absent/single/duplicated cases of the helpers; one witness request per header/query member replayed on the real build",
+ "C02": ("rsx", "source-level symbolic execution of all 96 generated deserialize_http bodies and of the http/de.rs helpers; z3 decides the equality of each member's source with the binding the Smithy model prescribes and the absent/single/duplicated cases of the helpers; one witness request per header/query member (list-valued headers as one comma-separated line) replayed on the real build directly and through the proxy configuration (adapter -> s3s_aws::Proxy with an aws-sdk-s3 client -> second adapter); buffered-body Content-Length witnesses",
          "every input member of every operation is shown to be decoded from exactly the location and wire name the API model gives it, no member from two sources, helper semantics absent->None/missing, one->parsed, duplicated->error, buffered body length = Content-Length; values are abstract (binding claim)",
-         "trusts the rsx executor and catalogue, the http crate's header-constant naming; the s3s-aws proxy path, XML payload content (C13) and value-level parsing beyond the Kani leaves are outside the claim",
+         "trusts the rsx executor and catalogue, the http crate's header-constant naming; through the proxy only header/query members and five payload operations are exercised (natively, not symbolically); XML payload content (C13) and value-level parsing beyond the Kani leaves are outside the symbolic claim",
          "DESIGN.md 5/C02", False),
- "C03": ("rsx", "source-level symbolic execution of all 96 generated serialize_http bodies and of the response half of every Operation::call; z3 decides status/header/payload bindings against the Smithy model; Kani harnesses on KeepAliveBody::poll_frame; witnesses on the real build",
+ "C03": ("rsx", "source-level symbolic execution of all 96 generated serialize_http bodies and of the response half of every Operation::call; z3 decides status/header/payload bindings against the Smithy model; Kani harnesses on KeepAliveBody::poll_frame; the XML codec obligations of C13 for response documents; filled-output witnesses on the real build (every simple output member set, 166 header-bound members checked against the model's header name and text)",
          "success status (206 iff ranged), every header-bound output member written once under the model's name, payload/body member, backend headers added, backend errors rendered, status override honoured — for every path of every operation",
          "trusts the rsx executor and catalogue; decoding by an actual SDK client, streamed body bytes and value-level XML/timestamps are outside the claim",
          "DESIGN.md 5/C03", False),
@@ -78,7 +78,7 @@ CHECKS = {
          "DESIGN.md 5/C01", False),
  "C14": ("kani", "bounded model checking of the compiled code (Kani/CBMC, SAT) with native counterexample playback",
          "Range::check is decided for every Range value and every u64 length (no bound); Range::parse for every 7-bit header with a tail of up to 8 bytes after \"bytes=\"; copy sources on concrete keys through the compiled parser; timestamps only by a data-flow obligation plus a native witness sweep (the time crate does not fit CBMC)",
-         "trusts Kani/CBMC's model of Rust and the references written from RFC 9110 in the harnesses; timestamp text and mime types are not decided symbolically (stated in the evidence)",
+         "trusts Kani/CBMC's model of Rust and the references written from RFC 9110 in the harnesses; Range::to_header_string by rsx + native round trips; timestamp text and content types are not decided symbolically: native sweeps (54 000 instants x offsets x formats incl. client texts in any offset; content types with parameters on both sides) validate them (stated in the evidence)",
          "DESIGN.md 5/C14", True),
 }
 
